@@ -129,7 +129,7 @@ def run(ctx):
         objrooted = '"x": "obj"' in json.dumps(e)
         lstrooted = e["x"] == "idx" and e["o"]["x"] == "list"
         runs = []
-        for root, rj in (envs if not objrooted else [(v, V.VInt(v)) for v in envvals]):
+        for ei, (root, rj) in (list(enumerate(envs, 1)) if not objrooted else [(len(envs) + 1 + k, (v, V.VInt(v))) for k, v in enumerate(envvals)]):
             g = {"this": root, "obj_": root, "list_": [1, 2, 3], "len_": len, "sum_": sum, "min_": min, "max_": max, "abs_": abs}
             if lstrooted:
                 val = enc_result(lambda: expr(root, [1, 2, 3]))
@@ -137,7 +137,7 @@ def run(ctx):
                 val = enc_result(lambda: expr(root))
             r = repr(expr)
             ev = enc_result(lambda: eval(r, dict(g)))
-            runs.append({"root": rj, "lst": V.VList([V.VInt(1), V.VInt(2), V.VInt(3)]), "val": val, "ev": ev})
+            runs.append({"ei": ei, "val": val, "ev": ev})
         cases.append({"id": "e%d" % i, "e": with_rp(canon(e)), "repr": repr(expr), "runs": runs})
         s = json.dumps(e)
         if ('"uni"' in s and '"bin"' in s) or (e["x"] == "bin" and e["l"]["x"] == "const"):
@@ -150,7 +150,9 @@ def run(ctx):
     for k in range(0, len(cases), size):
         p = os.path.join(ctx.scratch, "c11_%03d.json" % (k // size))
         with open(p, "w") as f:
-            json.dump({"cases": cases[k:k + size], "done": [], "sessions": []}, f, separators=(",", ":"))
+            lst = V.VList([V.VInt(1), V.VInt(2), V.VInt(3)])
+            envtab = [{"root": rj, "lst": lst} for _, rj in envs] + [{"root": V.VInt(v), "lst": lst} for v in envvals]
+            json.dump({"envs": envtab, "cases": cases[k:k + size], "done": [], "sessions": []}, f, separators=(",", ":"))
         paths.append(p)
     vs, stats = pipeline.validate(paths, jvms=ctx.jvms, workers=ctx.workers, scratch=ctx.scratch, module="TraceExpr")
     ctx.add_tlc(stats)
@@ -161,7 +163,7 @@ def run(ctx):
     for v in vs:
         if v["st"] == "mismatch":
             c = byid[v["id"]]
-            run_ = c["runs"][v["at"] - 1] if v["at"] else None
+            run_ = dict(c["runs"][v["at"] - 1]) if v["at"] else None
             ctx.report("C11." + v["why"], {"why": v["why"], "top": c["e"]["x"] + ":" + str(c["e"].get("op", c["e"].get("f", "")))},
                        {"kind": "expr", "e": c["e"], "repr": c["repr"], "run": run_, "verdict": v})
     ctx.cov["evaluations"] += len(vs)
